@@ -51,7 +51,7 @@ Replay(A, N, evs, i, syms, isets, acc) ==
 
 Problems(e) == (LET A == AugE(GramOfLine(e)) IN Replay(A, Nullable(A), e.ev, 1, <<>>, <<>>, {}))
                \cup (IF \E i \in DOMAIN e.ev : e.ev[i].k = 1 /\ ~PlBound(e.n + 1, e.ev[i].a + 1)
-                     THEN {"C07: the parser list grew beyond 2 * (tokens + 1)"} ELSE {})
+                     THEN {"DIAG: the parser list grew beyond 2 * (tokens + 1), the size pl_create allocates"} ELSE {})
 
 Init == l = 1
 Step == /\ l <= Len(TraceLines)
